@@ -55,8 +55,14 @@ def check_plumbing(ctx, rep, rule, prefixes):
                     continue
                 want = RENAMED.get((v.cls.name, f.name, attr), attr.lstrip('_'))
                 c = '%s(%s=self.%s)' % (f.name, pname, attr)
+                # a mis-wiring puts self.X into the slot of *another* argument of the same call: the iterator has a
+                # parameter named like the attribute, and it is bound to something else.  A private parameter that was
+                # merely given another name (no parameter called X is left) is a renaming, not a crossing.
+                others = {q: norm(b) for q, b in pairs}
                 if pname == want:
                     rep.held(rule, v.iter, c, '', call)
+                elif want not in f.params:
+                    rep.held(rule, v.iter, c, 'the iterator has no parameter `%s`: a plain renaming' % want, call)
                 else:
                     rep.violated(rule, v.iter, c,
                                  'the view hands self.%s to the parameter `%s` of %s (expected `%s`): the iterator works '
